@@ -197,10 +197,12 @@ def lean2(e, env):
     if k in ops: return f"({lean2(e[1], env)} {ops[k]} {lean2(e[2], env)})"
     raise ValueError(f"unknown node {k}")
 
-def translate_part_def(src):
-    body = body_of(src, "translate_part")
-    st = P2(tokenize2(body)).stmts()
-    env = {"offset_num": "offset_num", "max_num": "max_num"}
+def straight_line_def(src, fn, params, header):
+    """`fn` of helper/formula.rs in the second shape; `params` maps the scalar parameters to Lean names"""
+    body = body_of(src, fn)
+    p = P2(tokenize2(body)); st = p.stmts()
+    if p.peek() is not None: raise ValueError(f"trailing tokens from {p.peek()}")
+    env = dict(params)
     lines = []
     for s in st:
         if s[0] == "unpack":
@@ -212,8 +214,17 @@ def translate_part_def(src):
             lines.append(f"let {s[1]} : Int := {lean2(s[2], env)}"); env[s[1]] = s[1]
         elif s[0] == "tail":
             lines.append(lean2(s[1], env))
-    return ("/-- translated from `src/helper/formula.rs` fn `translate_part` (integers unbounded: the Rust computes in i64) -/\n"
-            "def translate_part (part : Int × Bool) (offset_num : Int) (max_num : Int) : Option (Int × Bool) :=\n  " + "\n  ".join(lines) + "\n")
+    return header + "\n  " + "\n  ".join(lines) + "\n"
+
+def translate_part_def(src):
+    return straight_line_def(src, "translate_part", {"offset_num": "offset_num", "max_num": "max_num"},
+            "/-- translated from `src/helper/formula.rs` fn `translate_part` (integers unbounded: the Rust computes in i64) -/\n"
+            "def translate_part (part : Int × Bool) (offset_num : Int) (max_num : Int) : Option (Int × Bool) :=")
+
+def insert_part_def(src):
+    return straight_line_def(src, "insert_part", {"root_num": "root_num", "offset_num": "offset_num", "max_num": "max_num", "is_end": "is_end"},
+            "/-- translated from `src/helper/formula.rs` fn `insert_part` (integers unbounded: the Rust adds two u32 in u64) -/\n"
+            "def insert_part (part : Int × Bool) (root_num offset_num max_num : Int) (is_end : Bool) : Option (Int × Bool) :=")
 
 def const_def(src, name, lean_name, path):
     m = re.search(r"const\s+" + name + r"\s*:\s*u32\s*=\s*(\d+)\s*;", src)
@@ -238,6 +249,7 @@ def main():
             fallbacks.append({"function": name, "reason": str(ex)[:120]})
     fsrc_path = "src/helper/formula.rs"
     for name, f in (("translate_part", lambda src: translate_part_def(src)),
+                    ("insert_part", lambda src: insert_part_def(src)),
                     ("max_column_num", lambda src: const_def(src, "MAX_COLUMN_NUM", "max_column_num", fsrc_path)),
                     ("max_row_num", lambda src: const_def(src, "MAX_ROW_NUM", "max_row_num", fsrc_path))):
         try:
